@@ -327,6 +327,15 @@ class SymNumpy:
                 return realnp.array([a], dtype=object)
             if num == 2:
                 return realnp.array([a, b], dtype=object)
+            if num in (3, 4) and not isinstance(a, Jet) and not isinstance(b, Jet) and isinstance(a, SYM + (int, float)) and isinstance(b, SYM + (int, float)):
+                # a * (b/a)^(i/(num-1)) with an algebraic root atom: node_i^2 == node_(i-1) * node_(i+1) holds identically
+                a_, b_ = _lift(a), _lift(b)
+                ratio = b_ / a_
+                if not (isinstance(ratio, SR) and ratio.is_const() and ratio.const_value() == 1):
+                    r = ratio.sqrt() if num == 3 else ratio.cbrt()
+                    out = [a_, a_ * r] + ([a_ * r * r] if num == 4 else []) + [b_]
+                    return realnp.array(out, dtype=object)
+                return realnp.array([a_] * num, dtype=object)
             # a * (b/a)^(i/(num-1))
             la, lb = self.log(a), self.log(b)
             out = [a]
